@@ -23,6 +23,7 @@ import Proofs.VdrVal
 import Martian.VdrAll
 import Proofs.VdrAll
 import Proofs.VdrDone
+import Proofs.VdrHyp
 import Martian.VdrEval
 import Proofs.VdrEval
 
@@ -384,6 +385,30 @@ theorem failure_is_not_completion :
       ["/p/files/a.txt".toList]) := by
   constructor <;> decide
 
+/-! ### content -/
+
+/-- **content_preserved_until_done.**  The model's entries carry the content of
+the file (`DiskEnt.hash`), and no event of the language writes: as long as
+consumer `n` has not completed, every entry its argument references is still
+there WITH ITS CONTENT (the very same entry); likewise for what the top level
+or a retain holds (`h = none`), for ever.  (A stage job writing into its files
+after the fork completed is outside the event language — Martian's contract;
+at run time the content of the survivors is compared through the replay's
+`kepthash` and by the monitors.) -/
+theorem content_preserved_until_done (c : Cfg) (s0 : St) (evs : List Ev) (ok : CfgOK c s0) (fr : Fresh s0)
+    (hv : c.volatile = true) (a : Arg) (h : Holder) (hh : Holds s0 a h)
+    (hn : ∀ n, h = some n → n ∉ (run c s0 evs).doneNodes) :
+    (∀ d ∈ s0.disk, isTmp d.kind = false → refs c a d.path = true →
+      ∃ d' ∈ (run c s0 evs).disk, d'.path = d.path ∧ d'.hash = d.hash ∧ d'.size = d.size) ∧
+    (∀ d' ∈ (run c s0 evs).disk, ∃ d ∈ s0.disk, d' = d) := by
+  refine ⟨?_, fun d' hd' => ⟨d', (shr_run c s0 evs).disk d' hd', rfl⟩⟩
+  intro d hd ht hr
+  have i := (Inv.init c s0 fr).run ok hv evs
+  rcases i.split d hd with h1 | h1
+  · exact ⟨d, h1, rfl, rfl, rfl⟩
+  · obtain ⟨m, e, hm⟩ := i.safe d h1 ht a h hh hr
+    exact absurd hm (hn m e)
+
 /-! ### the whole pipestance -/
 
 /-- **kill_safe_pipestance.**  All producer forks of a pipestance side by
@@ -457,7 +482,69 @@ theorem clone_keeps_holders (s : St) (disk : List DiskEnt) :
     (∀ a h, Holds (cloneFork s disk) a h ↔ Holds s a h) ∧ Fresh (cloneFork s disk) :=
   ⟨fun a h => cloneFork_holds s disk a h, ⟨rfl, rfl⟩⟩
 
+/-- **args_present_on_one_disk.**  All forks over ONE file system
+(`sharedDisk`: an entry is gone as soon as it lies at or below a path ANY fork
+has removed).  With the forks laid out as Martian lays them out (`Layout`:
+every fork's entries inside its own directory, the directories of different
+forks not inside one another, ids unique — distinctness of the fork
+directories of a node is `forkDir_injective` of Props/C11.lean; that they do
+not nest is assumed here), under every global history: what the argument of a
+holder that is not a completed consumer references in fork `q` is still on
+that one disk — no pass of `q` itself (the directory of a kept file is not
+removed: `refs_mono`) and no pass of any other fork takes it.  `hsep`: the
+entries below files/ are not below temp entries. -/
+theorem args_present_on_one_disk (dir : ForkId → Path) (fs : List PFork) (evs : List GEv)
+    (lay : Layout dir fs) (q : PFork) (hq : q ∈ fs) (ok : CfgOK q.cfg q.st) (fr : Fresh q.st)
+    (hv : q.cfg.volatile = true)
+    (hsep : ∀ g ∈ q.st.disk, isTmp g.kind = true → ∀ d ∈ q.st.disk, isTmp d.kind = false →
+      pathIsInside d.path g.path = false)
+    (a : Arg) (h : Holder) (hh : Holds q.st a h)
+    (hn : ∀ n, h = some n → n ∉ (run q.cfg q.st (proj q.id evs)).doneNodes) :
+    ∀ d ∈ q.st.disk, isTmp d.kind = false → refs q.cfg a d.path = true → d ∈ sharedDisk fs evs := by
+  intro d hd ht hr
+  unfold sharedDisk
+  rw [List.mem_filter]
+  refine ⟨List.mem_flatMap.mpr ⟨q, hq, hd⟩, ?_⟩
+  rw [Bool.not_eq_true', List.any_eq_false]
+  intro f hf
+  rw [Bool.not_eq_true, List.any_eq_false]
+  intro g hg
+  rw [Bool.not_eq_true]
+  by_cases hid : f.id = q.id
+  · have e := lay.uniq f hf q hq hid
+    subst e
+    have i := (Inv.init f.cfg f.st fr).run ok hv (proj f.id evs)
+    have hg0 : g ∈ f.st.disk := i.rsub g hg
+    cases hin : pathIsInside d.path g.path with
+    | false => rfl
+    | true =>
+      exfalso
+      cases hgt : isTmp g.kind with
+      | true => have := hsep g hg0 hgt d hd ht; rw [hin] at this; cases this
+      | false =>
+        have hrg : refs f.cfg a g.path = true :=
+          refs_mono (ok.cleanD d hd) (ok.cleanD g hg0) (ok.noDbl d hd) (ok.noDbl g hg0) (ok.cleanF a) hin hr
+        obtain ⟨m, e, hm⟩ := i.safe g hg hgt a h hh hrg
+        exact hn m e hm
+  · exact no_cross_fork_removal lay evs hf hq hid g hg d hd
+
 /-! ### non-vacuity -/
+
+/-- two forks on one disk in their own directories: a history in which both run their passes;
+`P2` completes its consumer, `P1` does not; `P1`'s held files are on the shared disk -/
+example :
+    let c1 : Cfg := { volatile := true, strict := true, splits := false
+                      argNames := [("a", ["/ps/P/fork1/files/a".toList])], argFiles := [("a", ["/ps/P/fork1/files/a".toList])]
+                      initArgs := [("a", [some "C"])], initPost := [("C", ["a"])] }
+    let c2 : Cfg := { c1 with argNames := [("a", ["/ps/P/fork2/files/a".toList])], argFiles := [("a", ["/ps/P/fork2/files/a".toList])] }
+    let s1 : St := { fileArgs := [("a", [some "C"])], postNodes := [("C", ["a"])],
+                     disk := [⟨"/ps/P/fork1/files/a".toList, 1, .out, [], 7⟩, ⟨"/ps/P/fork1/files/junk".toList, 2, .out, [], 8⟩] }
+    let s2 : St := { s1 with disk := [⟨"/ps/P/fork2/files/a".toList, 1, .out, [], 9⟩] }
+    let fs : List PFork := [⟨"P.fork1", c1, s1⟩, ⟨"P.fork2", c2, s2⟩]
+    let evs : List GEv := [.fork "P.fork1" .cacheMap, .fork "P.fork2" .cacheMap, .fork "P.fork1" .kill, .fork "P.fork2" .kill]
+    (sharedDisk fs evs).map (·.path) = ["/ps/P/fork1/files/a".toList, "/ps/P/fork2/files/a".toList] ∧
+    (sharedDisk fs (evs ++ [.nodeDone "C", .fork "P.fork2" .kill])).map (·.path) = ["/ps/P/fork1/files/a".toList] := by
+  decide
 
 /-- a nested tree: `TOP` calls `P`, the sub-pipeline `SUB` (not top-level, retaining `P.keep`)
 with the consumers `C1` (bound to a split of `P.xs`) and `C2` (bound to the struct field
@@ -487,8 +574,8 @@ example :
                       argNames := [("xs", ["/p/f/x0".toList]), ("bag.f", ["/p/f/b".toList]), ("keep", ["/p/f/k".toList])]
                       argFiles := [("xs", ["/p/f/x0".toList]), ("bag.f", ["/p/f/b".toList]), ("keep", ["/p/f/k".toList])]
                       initArgs := t.fileArgs, initPost := t.postNodes }
-     let s := t.st [⟨"/p/f/x0".toList, 1, .out, []⟩, ⟨"/p/f/b".toList, 2, .out, []⟩, ⟨"/p/f/k".toList, 3, .out, []⟩,
-                    ⟨"/p/f/junk".toList, 4, .out, []⟩]
+     let s := t.st [⟨"/p/f/x0".toList, 1, .out, [], 0⟩, ⟨"/p/f/b".toList, 2, .out, [], 0⟩, ⟨"/p/f/k".toList, 3, .out, [], 0⟩,
+                    ⟨"/p/f/junk".toList, 4, .out, [], 0⟩]
      (run c s [.removeEmpty, .cacheMap, .kill, .nodeDone "C1", .restart, .kill]).disk.map (·.path) =
        ["/p/f/b".toList, "/p/f/k".toList] ∧
      (run c s [.removeEmpty, .cacheMap, .kill, .nodeDone "C1", .restart, .kill, .nodeDone "C2", .kill]).disk.map (·.path) =
@@ -547,26 +634,23 @@ example :
 
 
 /-- the hypotheses of `kill_safe` are satisfiable -/
-example : CfgOK exCfg exSt ∧ Fresh exSt ∧ exCfg.volatile = true := by
-  refine ⟨⟨?_, ?_, ?_, ⟨rfl, rfl⟩⟩, ⟨rfl, rfl⟩, rfl⟩
-  · intro a h
-    exact h
-  · intro a f hf
-    obtain ⟨p, hp, hfp⟩ := mem_lookup_getD hf
-    simp [exCfg] at hp
-    rcases hp with rfl | rfl
-    · simp at hfp; subst hfp
-      exact clean_of_getLast (x := 't') (by decide) (by decide)
-    · simp at hfp; subst hfp
-      exact clean_of_getLast (x := 't') (by decide) (by decide)
-  · intro d hd
-    simp [exSt] at hd
-    rcases hd with rfl | rfl | rfl | rfl | rfl
-    · exact clean_of_getLast (x := 't') (by decide) (by decide)
-    · exact clean_of_getLast (x := 'b') (by decide) (by decide)
-    · exact clean_of_getLast (x := 't') (by decide) (by decide)
-    · exact clean_of_getLast (x := 'h') (by decide) (by decide)
-    · exact clean_of_getLast (x := 't') (by decide) (by decide)
+example : CfgOK exCfg exSt ∧ Fresh exSt ∧ exCfg.volatile = true :=
+  ⟨cfgOKB_sound (by decide), ⟨rfl, rfl⟩, rfl⟩
+
+/-- a raw spelling with a trailing separator next to its cleaned form is admitted by `CfgOK`
+(what `getLogicalFileNames` returns for an output spelled `…/outdir/`), and the directory is
+kept while the consumer has not completed -/
+example :
+    let c : Cfg := { volatile := true, strict := true, splits := false
+                     argNames := [("d", ["/p/files/outdir/".toList])]
+                     argFiles := [("d", ["/p/files/outdir/".toList, "/p/files/outdir".toList])]
+                     initArgs := [("d", [some "C"])], initPost := [("C", ["d"])] }
+    let s : St := { fileArgs := [("d", [some "C"])], postNodes := [("C", ["d"])],
+                    disk := [⟨"/p/files/outdir".toList, 4096, .out, [], 0⟩, ⟨"/p/files/outdir/x".toList, 1, .out, [], 0⟩,
+                             ⟨"/p/files/junk".toList, 2, .out, [], 0⟩] }
+    cfgOKB c s = true ∧
+    (run c s [.removeEmpty, .cacheMap, .kill]).disk.map (·.path) = ["/p/files/outdir".toList, "/p/files/outdir/x".toList] := by
+  decide
 
 /-- … and the conclusion is not vacuous: while `C` runs a kill removes the
 scratch file only; once `C` is done, `b`'s file and directory go as well and
